@@ -27,6 +27,7 @@ def run(tier, wd):
     rnd = random.Random(core.seed())
     p = g.STD_PROG
     q = tier == "quick"
+    core.replay_witnesses(rep, binpath, wd)
     # (a) insertion of -- anywhere in the trailing block of positionals, including the very end
     specs_a = g.family(p, 25 if q else 250, core.seed(), want=no_end)
     per_spec = 25 if q else 120
